@@ -35,9 +35,23 @@ func HAtomicSession() {
 	newA, newB := nd_bytes(2), nd_bytes(1)
 	seed := nd_i32()
 	var in []byte
-	in = append(in, wholeFileStream(0, newA, seed)...)
+	sa := wholeFileStream(0, newA, seed)
 	sb := wholeFileStream(1, newB, seed)
-	if nd_bool() {
+	damagedA := false
+	damagedB := false
+	if vparam("first") == 1 && nd_bool() {
+		// flip one bit of the FIRST file's literal data or trailer; the second file is good
+		pos := 24 + nd_range(0, 1)
+		if k := nd_range(0, 16); k > 0 {
+			pos = 29 + k
+		}
+		sa[pos] ^= 1 << uint(nd_range(0, 7))
+		damagedA = true
+		vreach("damaged-first")
+	}
+	in = append(in, sa...)
+	if !damagedA && nd_bool() {
+		damagedB = true
 		// flip one bit of the second file's literal byte or of its checksum trailer
 		// (damaged token words are C03's subject; under the ideal-hash model a damaged
 		// length field could be "repaired" by a freely chosen digest value)
@@ -77,6 +91,12 @@ func HAtomicSession() {
 	}
 	err := rt.RecvFiles(fl)
 	fsys.OnEvent = nil
+	if (damagedA || damagedB) && cut < 0 {
+		vassert(err != nil, "a session with a damaged file was reported as successful")
+	}
+	if damagedA {
+		vassert(bytesEq(fsys.Get("a").Data, oldA), "a damaged file replaced the destination")
+	}
 	vassert(okA(fsys.Get("a")), "file a mixed or partial at the end")
 	vassert(okB(fsys.Get("b")), "file b mixed or partial at the end")
 	if err != nil {
